@@ -64,9 +64,10 @@ def run(chk, replay=None):
     lib = []
     for n in (1, 2, 4):
         for k in range(n):
-            for fk in ('500', 'cut'):
+            for fk in ('500', 'cut', 'cancel'):
                 hw = [{'status': 200, 'body': b64(good), 'cut': -1} for _ in range(n)]
                 if fk == '500': hw[k]['status'] = 500
+                elif fk == 'cancel': hw[k]['cancel'] = True      # the caller's context is cancelled while host k is in flight
                 else: hw[k]['cut'] = 5
                 lib.append((n, k, fk, hw))
     import tempfile, shutil
